@@ -234,6 +234,10 @@ func genPrior(r *kern.Rng, pkg string) scen.Prior {
 		p.Reads = []int{r.Pick(1, 7, 100, 4096)}
 	case 1: // into an error
 		p.In.Mut = []scen.Mutation{{K: "flip", Pos: r.Intn(1 << 16)}, {K: "trunc", Pos: 1 + r.Intn(1<<14)}}
+	case 2: // its source fails part-way
+		if r.Bool() {
+			p.FailAfter = 1 + r.Intn(1<<14)
+		}
 	}
 	return p
 }
@@ -402,7 +406,7 @@ func (c04) Runs(tier string) int { return tierLen(tier, 1200, 16000) }
 
 func (c04) Gen(r *kern.Rng, tier string, idx int) *Trace {
 	maxLen := tierLen(tier, 200000, 1<<20)
-	if r.Pct(70) {
+	if r.Pct(50) {
 		maxLen = 60000
 	}
 	base := &scen.RScen{Pkg: "flate", Src: scen.SrcSpec{Kind: "bytes.Reader"}}
@@ -436,6 +440,8 @@ func (c04) Gen(r *kern.Rng, tier string, idx int) *Trace {
 			}
 		case 5:
 			v.Reads = []int{1}
+		case 6:
+			v.Del = kern.Delivery{Chunks: [][]int{{2}, {3}, {1, 2}, {1, 1, 7}, {5}}[r.Intn(5)]}
 		}
 		if r.Pct(15) {
 			v.Ctor = "reset"
